@@ -234,6 +234,26 @@ pub fn find_chrom<'a>(v: &'a Vec<ChromInfo>, chrom_name: &Name) -> (r: Option<&'
     }
     None
 }
+/// `V.iter().find(|&x| x.name != chrom_name)`: the FIRST entry whose name DIFFERS (what `find` with that predicate
+/// returns; 0 hits on /repo)
+pub fn find_chrom_ne<'a>(v: &'a Vec<ChromInfo>, chrom_name: &Name) -> (r: Option<&'a ChromInfo>)
+    ensures
+        r matches Some(c) ==> exists|k: int| 0 <= k < v@.len() && v@[k] == *c && v@[k].name != *chrom_name
+            && forall|j: int| 0 <= j < k ==> (#[trigger] v@[j]).name == *chrom_name,
+        r is None ==> forall|j: int| 0 <= j < v@.len() ==> (#[trigger] v@[j]).name == *chrom_name,
+{
+    let mut i: usize = 0;
+    while i < v.len()
+        invariant i <= v.len(), forall|j: int| 0 <= j < i ==> (#[trigger] v@[j]).name == *chrom_name,
+        decreases v.len() - i,
+    {
+        if !name_eq(&v[i].name, chrom_name) {
+            return Some(&v[i]);
+        }
+        i = i + 1;
+    }
+    None
+}
 /// `V.iter().position(|x| x.name == chrom_name)` (0 hits on /repo; lets an edit that uses the table POSITION
 /// reach the verifier): the index of the first entry with that name
 pub fn position_chrom(v: &Vec<ChromInfo>, chrom_name: &Name) -> (r: Option<usize>)
@@ -297,6 +317,7 @@ impl BBIFileInfo {
 //@rule R8
 //@sub /chrom_name: &str/ => chrom_name: &Name min=1
 //@sub /((?:\w+(?:\(\))?\s*\.\s*)*\w+(?:\(\))?)\s*\.iter\(\)\s*\.find\(\|&?\w+\| \w+\.name == chrom_name\)/ => find_chrom(&\1, chrom_name) min=0
+//@sub /((?:\w+(?:\(\))?\s*\.\s*)*\w+(?:\(\))?)\s*\.iter\(\)\s*\.find\(\|&?\w+\| \w+\.name != chrom_name\)/ => find_chrom_ne(&\1, chrom_name) min=0
 //@sub /((?:\w+(?:\(\))?\s*\.\s*)*\w+(?:\(\))?)\s*\.iter\(\)\s*\.position\(\|&?\w+\| \w+\.name == chrom_name\)/ => position_chrom(&\1, chrom_name) min=0
 //@sub /((?:\w+(?:\(\))?\s*\.\s*)*\w+(?:\(\))?)\s*\.binary_search_by\(\|(\w+)\|\s*\2\.name\.as_str\(\)\.cmp\(chrom_name\)\)/ => bsearch_chrom_by_name(&\1, chrom_name) min=0
 //@ret r
@@ -316,6 +337,7 @@ impl BBIFileInfo {
 //@sub /file: &mut R/ => file: &mut VRead min=1
 //@sub /chrom_name: &str/ => chrom_name: &Name min=1
 //@sub /((?:\w+(?:\(\))?\s*\.\s*)*\w+(?:\(\))?)\s*\.iter\(\)\s*\.find\(\|&?\w+\| \w+\.name == chrom_name\)/ => find_chrom(&\1, chrom_name) min=0
+//@sub /((?:\w+(?:\(\))?\s*\.\s*)*\w+(?:\(\))?)\s*\.iter\(\)\s*\.find\(\|&?\w+\| \w+\.name != chrom_name\)/ => find_chrom_ne(&\1, chrom_name) min=0
 //@sub /((?:\w+(?:\(\))?\s*\.\s*)*\w+(?:\(\))?)\s*\.iter\(\)\s*\.position\(\|&?\w+\| \w+\.name == chrom_name\)/ => position_chrom(&\1, chrom_name) min=0
 //@sub /((?:\w+(?:\(\))?\s*\.\s*)*\w+(?:\(\))?)\s*\.binary_search_by\(\|(\w+)\|\s*\2\.name\.as_str\(\)\.cmp\(chrom_name\)\)/ => bsearch_chrom_by_name(&\1, chrom_name) min=0
 //@sub /(search_cir_tree_inner\([^()]*\))\?/ => (match \1 { Ok(v__) => v__, Err(e__) => return Err(io_to_cts(e__)) }) min=0
@@ -564,6 +586,7 @@ impl BigBedRead {
 //@sub /[ \t]*r: std::marker::PhantomData,\n/ => "" min=1
 //@sub /\.into_iter\(\)/ => "" min=0
 //@sub /((?:\w+(?:\(\))?\s*\.\s*)*\w+(?:\(\))?)\s*\.iter\(\)\s*\.find\(\|&?\w+\| \w+\.name == chrom_name\)/ => find_chrom(&\1, chrom_name) min=0
+//@sub /((?:\w+(?:\(\))?\s*\.\s*)*\w+(?:\(\))?)\s*\.iter\(\)\s*\.find\(\|&?\w+\| \w+\.name != chrom_name\)/ => find_chrom_ne(&\1, chrom_name) min=0
 //@sub /((?:\w+(?:\(\))?\s*\.\s*)*\w+(?:\(\))?)\s*\.iter\(\)\s*\.position\(\|&?\w+\| \w+\.name == chrom_name\)/ => position_chrom(&\1, chrom_name) min=0
 //@sub /((?:\w+(?:\(\))?\s*\.\s*)*\w+(?:\(\))?)\s*\.binary_search_by\(\|(\w+)\|\s*\2\.name\.as_str\(\)\.cmp\(chrom_name\)\)/ => bsearch_chrom_by_name(&\1, chrom_name) min=0
 //@sub /(self\.info\.chrom_id\([^()]*\))\?/ => (match \1 { Ok(v__) => v__, Err(e__) => return Err(cinf_to_read(e__)) }) min=0
@@ -598,6 +621,7 @@ impl BigBedRead {
 //@sub /[ \t]*r: std::marker::PhantomData,\n/ => "" min=1
 //@sub /\.into_iter\(\)/ => "" min=0
 //@sub /((?:\w+(?:\(\))?\s*\.\s*)*\w+(?:\(\))?)\s*\.iter\(\)\s*\.find\(\|&?\w+\| \w+\.name == chrom_name\)/ => find_chrom(&\1, chrom_name) min=0
+//@sub /((?:\w+(?:\(\))?\s*\.\s*)*\w+(?:\(\))?)\s*\.iter\(\)\s*\.find\(\|&?\w+\| \w+\.name != chrom_name\)/ => find_chrom_ne(&\1, chrom_name) min=0
 //@sub /((?:\w+(?:\(\))?\s*\.\s*)*\w+(?:\(\))?)\s*\.iter\(\)\s*\.position\(\|&?\w+\| \w+\.name == chrom_name\)/ => position_chrom(&\1, chrom_name) min=0
 //@sub /((?:\w+(?:\(\))?\s*\.\s*)*\w+(?:\(\))?)\s*\.binary_search_by\(\|(\w+)\|\s*\2\.name\.as_str\(\)\.cmp\(chrom_name\)\)/ => bsearch_chrom_by_name(&\1, chrom_name) min=0
 //@sub /(self\.info\.chrom_id\([^()]*\))\?/ => (match \1 { Ok(v__) => v__, Err(e__) => return Err(cinf_to_read(e__)) }) min=0
